@@ -717,6 +717,16 @@ func (vc *FuncVC) trCall(e *env, n *ECall) Term {
 				}
 			}
 			return e.fail("deref of a non-pointer")
+		case "unboxas": // unboxas(x, "bool"|"float64"|...): the value held by an interface value of that dynamic type
+			if st, ok := n.Args[1].(*EStr); ok {
+				t := vc.eng.typeByName(st.V)
+				if t == nil {
+					return e.fail("unknown type %q", st.V)
+				}
+				r := vc.unboxPayload(app("Int", "i!pl", args[0]), vc.ss.sortOf(t))
+				r.GoT = t
+				return r
+			}
 		case "unboxstr": // unboxstr(x): the string held by an interface value of dynamic type string
 			return vc.unboxPayload(app("Int", "i!pl", args[0]), "String")
 		case "functag", "predtag": // functag("pkg.T"): type tag of func(context.Context, pkg.T) error; predtag: ... (bool, error)
